@@ -404,7 +404,7 @@ func (e *c09Env) ruleWebseedOwner() {
 		if val.IsNil() {
 			cleared++
 			key := e.k.key(s.Fn, "clear myPiece.RequestedWebseed")
-			if closeOwned[s.Fn] || stopOwned[s.Fn] {
+			if closeOwned[s.Fn] || stopOwned[s.Fn] || c09OwnedBy(c, closeWS, stopAt)[s.Fn] {
 				c.Present("R09.6", key, posOf(s.Store), "ownership released in %s", c09ShortName(s.Fn))
 			} else {
 				c.Bad("R09.6", key, posOf(s.Store), "RequestedWebseed cleared in %s: a piece leaves its web-seed range outside CloseWebseedDownloader/WebseedStopAt", kit.FuncName(s.Fn))
@@ -446,7 +446,7 @@ func (e *c09Env) ruleWebseedOwner() {
 		}
 	}
 	c.Floor("R09.6", "non-nil stores to myPiece.RequestedWebseed", set, 1)
-	c.Floor("R09.6", "nil stores to myPiece.RequestedWebseed", cleared, 2)
+	c.Floor("R09.6", "nil stores to myPiece.RequestedWebseed", cleared, 1)
 }
 
 // ---- R09.7 ------------------------------------------------------------------
